@@ -203,9 +203,13 @@ class FacadeAdapter(BaseAdapter):
                 kw = {}
                 if op.startswith('Open') or op.startswith('Pull'):
                     kw['has_out_params'] = True
-                # the seam's convention for "parameter not supplied" is the value None
-                for pname, _, _ in c04spec.SPEC.get(op, {'params': []})['params']:
-                    kw.setdefault(pname, None)
+                # OPTIONAL parameters that are not on the wire are NOT passed (the operation behind the server applies
+                # its own default, as a real server does).  Only for REQUIRED parameters - which the seam indexes
+                # unconditionally and for which DSP0200 knows no "omitted" - an absent one is passed as None, the
+                # seam's convention for "not supplied" (the client lets None through for some of them).
+                for pname, pkind, req in c04spec.SPEC.get(op, {'params': []})['params']:
+                    if req or pkind == 'klass' or (pname == 'MaxObjectCount' and op.startswith('Pull')):
+                        kw.setdefault(pname, None)
                 kw.update(dict(params))
                 rec['stage'] = 'execute'
                 result = self.fake._imethodcall(op, namespace, **kw)
@@ -263,13 +267,18 @@ class HttpFacade:
     """the facade behind a real loopback HTTP server (http.server on 127.0.0.1, free port above 52000), so that the
     whole client stack incl. urllib3 connection handling and retry logic runs.  `fault` = {request index: mode}:
     after EXECUTING that request the server closes the connection without replying ('drop') or after half of the
-    response body ('truncate') - the reply is lost although the operation took effect."""
+    response body ('truncate') - the reply is lost although the operation took effect.  `content_type`: the
+    Content-Type header of the replies (DSP0200 allows application/xml and text/xml, with or without charset; the body
+    is UTF-8 with an XML declaration in every case)."""
 
-    def __init__(self, fake, fault=None):
+    CONTENT_TYPES = ['application/xml; charset="utf-8"', 'text/xml; charset=utf-8', 'text/xml', 'application/xml']
+
+    def __init__(self, fake, fault=None, content_type=None):
         import random
         import threading
         from http.server import BaseHTTPRequestHandler, ThreadingHTTPServer
         self.fault = dict(fault or {})
+        self.content_type = content_type or self.CONTENT_TYPES[0]
         self.nreq = 0
         self.lock = threading.Lock()
         outer = self
@@ -304,7 +313,7 @@ class HttpFacade:
                         pass
                     return
                 self.send_response(200)
-                self.send_header('Content-Type', 'application/xml; charset="utf-8"')
+                self.send_header('Content-Type', outer.content_type)
                 self.send_header('CIMOperation', 'MethodResponse')
                 self.send_header('Content-Length', str(len(data)))
                 self.end_headers()
